@@ -2053,8 +2053,9 @@ func checkGrowPerLeaf(p *Program, r *Report, rule string) {
 //
 // existenceTests is the reviewed table of exact tests of the package:
 //   inForest(pos, numLeaves, rows) bool      - walks to the rightmost leaf below pos and compares it with numLeaves
-//   maxPositionAtRow(row, rows, numLeaves)   - last populated position of a row
-var existenceTests = map[string]bool{"inForest": true, "maxPositionAtRow": true}
+// (maxPositionAtRow was in this table until a seeding agent's witness showed it inexact for the empty forest:
+// maxPositionAtRow(0, 0, 0) is 0, so position 0 "exists" with no leaves.)
+var existenceTests = map[string]bool{"inForest": true}
 
 func checkReadInForest(p *Program, r *Report, rule string) {
 	n := 0
@@ -2132,7 +2133,7 @@ func checkReadInForest(p *Program, r *Report, rule string) {
 					if gd, ok := existenceGuard(p, g, b); ok {
 						r.Discharge(rule, key, posOf(p, in), "the walk from a root chosen by arithmetic is gated by the exact existence test "+gd, true)
 					} else {
-						r.Violate(rule, key, posOf(p, in), "a root is chosen by arithmetic on the position and walked without an exact existence test (reviewed tests: inForest, maxPositionAtRow) of the position against the leaf count: a position in the unpopulated tail of a row is resolved to some other node and its hash returned instead of the zero hash", "in "+p.FuncName(g)+", reached from "+ename)
+						r.Violate(rule, key, posOf(p, in), "a root is chosen by arithmetic on the position and walked without an exact existence test (reviewed test: inForest) of the position against the leaf count: a position in the unpopulated tail of a row is resolved to some other node and its hash returned instead of the zero hash", "in "+p.FuncName(g)+", reached from "+ename)
 					}
 				}
 			}
